@@ -4,6 +4,7 @@
 -/
 import J2M.Render
 import J2M.Converters
+import J2M.Proofs.Inh
 namespace J2M.Conv
 
 open J2M
@@ -176,5 +177,418 @@ theorem processValue_chain {acc g k t} (hc : Chain k t) :
     rw [mapM_ok _ (fun kv => (kv.1, mapLeaves k kv.2)) kvs
       (fun kv hkv => by rw [ih kv.2 optional (hkvs kv hkv)]; rfl)]
     simp [mapLeaves, mapLeavesKvs_eq, Except.map]
+
+/-! ## `stringFieldPaths` -/
+
+/-- the kind at the leaf of a chain -/
+def chainKind? (t : Ty) : Option String :=
+  match spineLeaf t with
+  | .ser k => some k
+  | _ => none
+
+theorem chainKind?_eq_some {t k} : chainKind? t = some k ↔ Chain k t := by
+  unfold chainKind?
+  constructor
+  · intro h
+    split at h
+    · rename_i k' hk; cases h; exact chain_of_spineLeaf hk
+    · cases h
+  · intro h; rw [h.spineLeaf]
+
+theorem chainKind?_eq_none {t} : chainKind? t = none ↔ ∀ k, ¬ Chain k t := by
+  constructor
+  · intro h k hk; rw [chainKind?_eq_some.2 hk] at h; cases h
+  · intro h
+    cases hc : chainKind? t with
+    | none => rfl
+    | some k => exact absurd (chainKind?_eq_some.1 hc) (h k)
+
+/-- the dotted path text of the decorator entry: empty for a bare pseudo-type -/
+def pathStr (t : Ty) : String := if pathOf t = ["S"] then "" else ".".intercalate (pathOf t)
+
+/-- what one field contributes to `get_string_field_paths` -/
+def fieldEntry (kv : String × Ty) : Option (String × String) :=
+  (chainKind? kv.2).map (fun _ => (kv.1, pathStr kv.2))
+
+theorem stringFieldPaths_step (kv : String × Ty) (h : NoTupleObj kv.2) :
+    (do match ← stringFieldPath kv.2 with
+        | some ["S"] => pure (some (kv.1, ""))
+        | some p => pure (some (kv.1, ".".intercalate p))
+        | none => pure none : Except PyErr (Option (String × String))) = .ok (fieldEntry kv) := by
+  unfold fieldEntry
+  cases hc : chainKind? kv.2 with
+  | none =>
+    rw [stringFieldPath_none (chainKind?_eq_none.1 hc) h]; rfl
+  | some k =>
+    rw [stringFieldPath_chain (chainKind?_eq_some.1 hc)]
+    simp only [bind, Except.bind, Option.map_some, pathStr]
+    by_cases hp : pathOf kv.2 = ["S"]
+    · rw [hp]; rfl
+    · simp only [hp, if_false]
+      rfl
+
+theorem stringFieldPaths_eq (fields : Fields) (h : ∀ f ∈ fields, NoTupleObj f.2) :
+    stringFieldPaths fields = .ok (fields.filterMap fieldEntry) := by
+  unfold stringFieldPaths
+  rw [mapM_ok (g := fieldEntry)]
+  · simp [bind, Except.bind, pure, Except.pure, List.filterMap_map]
+  · intro kv hkv; exact stringFieldPaths_step kv (h kv hkv)
+
+theorem mapM_ok_imp {α β ε} (f : α → Except ε β) :
+    ∀ (xs : List α) (ys : List β), xs.mapM f = .ok ys → ∀ x ∈ xs, ∃ y, f x = .ok y
+  | [], _, _ => by simp
+  | x :: xs, ys, h => by
+    rw [List.mapM_cons] at h
+    cases hx : f x with
+    | error e => rw [hx] at h; cases h
+    | ok y =>
+      cases hxs : xs.mapM f with
+      | error e => rw [hx, hxs] at h; cases h
+      | ok ys' =>
+        intro x' hx'
+        rcases List.mem_cons.1 hx' with rfl | hx'
+        · exact ⟨y, hx⟩
+        · exact mapM_ok_imp f xs ys' hxs x' hx'
+
+theorem mapM_error_imp {α β ε} (f : α → Except ε β) :
+    ∀ (xs : List α) (e : ε), xs.mapM f = .error e → ∃ x ∈ xs, f x = .error e
+  | [], e, h => by cases h
+  | x :: xs, e, h => by
+    rw [List.mapM_cons] at h
+    cases hx : f x with
+    | error e' => rw [hx] at h; cases h; exact ⟨x, by simp, hx⟩
+    | ok y =>
+      cases hxs : xs.mapM f with
+      | error e' =>
+        rw [hx, hxs] at h; cases h
+        obtain ⟨x', hx', he⟩ := mapM_error_imp f xs e hxs
+        exact ⟨x', by simp [hx'], he⟩
+      | ok ys' => rw [hx, hxs] at h; cases h
+
+/-- the walk succeeds exactly when no field has a `tuple` / raw-dict leaf, and otherwise raises `TypeError` -/
+theorem stringFieldPaths_ok_iff (fields : Fields) :
+    (∃ ps, stringFieldPaths fields = .ok ps) ↔ ∀ f ∈ fields, NoTupleObj f.2 := by
+  constructor
+  · rintro ⟨ps, h⟩ f hf
+    unfold stringFieldPaths at h
+    simp only [bind, Except.bind] at h
+    split at h
+    · cases h
+    · rename_i r hr
+      obtain ⟨y, hy⟩ := mapM_ok_imp _ _ _ hr f hf
+      by_cases hn : NoTupleObj f.2
+      · exact hn
+      · have := (stringFieldPath_error_iff (t := f.2) (e := .typeError)).2 ⟨hn, rfl⟩
+        simp [this] at hy
+  · intro h; exact ⟨_, stringFieldPaths_eq fields h⟩
+
+theorem stringFieldPaths_error (fields : Fields) (e : PyErr) (h : stringFieldPaths fields = .error e) :
+    e = .typeError ∧ ∃ f ∈ fields, ¬ NoTupleObj f.2 := by
+  unfold stringFieldPaths at h
+  simp only [bind, Except.bind] at h
+  split at h
+  · rename_i e' hr
+    cases h
+    obtain ⟨f, hf, he⟩ := mapM_error_imp _ _ _ hr
+    cases hs : stringFieldPath f.2 with
+    | error e2 =>
+      have := stringFieldPath_error_iff.1 hs
+      simp [hs] at he
+      exact ⟨by rw [← he, this.2], f, hf, this.1⟩
+    | ok r =>
+      exfalso
+      simp only [hs] at he
+      split at he <;> cases he
+  · cases h
+
+/-- the entries: exactly the fields whose type is a chain, in field order, each with its path -/
+theorem mem_stringFieldPaths {fields : Fields} {ps : List (String × String)} (h : stringFieldPaths fields = .ok ps)
+    (name p : String) :
+    (name, p) ∈ ps ↔ ∃ t k, (name, t) ∈ fields ∧ Chain k t ∧ p = pathStr t := by
+  have hn := (stringFieldPaths_ok_iff fields).1 ⟨ps, h⟩
+  rw [stringFieldPaths_eq fields hn] at h
+  cases h
+  simp only [List.mem_filterMap, fieldEntry, Option.map_eq_some_iff]
+  constructor
+  · rintro ⟨⟨n, t⟩, hm, k, hk, heq⟩
+    cases heq
+    exact ⟨t, k, hm, chainKind?_eq_some.1 hk, rfl⟩
+  · rintro ⟨t, k, hm, hk, rfl⟩
+    exact ⟨(name, t), hm, k, chainKind?_eq_some.2 hk, rfl⟩
+
+/-! ## `postInit` touches only the listed names -/
+
+theorem find?_setAttr_ne (self : List (String × PVal)) (name name' : String) (v : PVal) (hne : name' ≠ name) :
+    (setAttr self name v).find? (·.1 = name') = self.find? (·.1 = name') := by
+  induction self with
+  | nil => rfl
+  | cons p self ih =>
+    unfold setAttr at ih ⊢
+    simp only [List.map_cons, List.find?_cons]
+    by_cases hp : p.1 = name
+    · simp [hp, Ne.symm hne, ih]
+    · simp only [hp, if_false]
+      split <;> simp_all
+
+theorem keys_setAttr (self : List (String × PVal)) (name : String) (v : PVal) :
+    (setAttr self name v).map (·.1) = self.map (·.1) := by
+  induction self with
+  | nil => rfl
+  | cons p self ih =>
+    unfold setAttr at ih ⊢
+    simp only [List.map_cons, ih]
+    by_cases hp : p.1 = name <;> simp [hp]
+
+theorem postInit_frame (acc : Accepts) (ann : Fields) :
+    ∀ (ps : List (String × List String)) (self self' : List (String × PVal)),
+      postInit acc ann ps self = .ok self' →
+      self'.map (·.1) = self.map (·.1) ∧
+      ∀ name, name ∉ ps.map (·.1) → self'.find? (·.1 = name) = self.find? (·.1 = name)
+  | [], self, self', h => by simp [postInit] at h; subst h; simp
+  | (n, path) :: rest, self, self', h => by
+    simp only [postInit] at h
+    split at h
+    · rename_i j t hj ht
+      split at h
+      · rename_i nv hnv
+        obtain ⟨hk, hf⟩ := postInit_frame acc ann rest _ _ h
+        refine ⟨by rw [hk, keys_setAttr], fun name hname => ?_⟩
+        simp only [List.map_cons, List.mem_cons, not_or] at hname
+        rw [hf name hname.2, find?_setAttr_ne _ _ _ _ hname.1]
+      · cases h
+    · cases h
+    · cases h
+
+/-! ## the dotted path text splits back into the tokens -/
+
+theorem splitDotsGo_tok (tok rest cur : List Char) (h : '.' ∉ tok) :
+    splitDotsGo (tok ++ rest) cur = splitDotsGo rest (tok.reverse ++ cur) := by
+  induction tok generalizing cur with
+  | nil => rfl
+  | cons c tok ih =>
+    have hc : c ≠ '.' := fun e => h (by simp [e])
+    have ht : '.' ∉ tok := fun e => h (by simp [e])
+    simp only [List.cons_append, splitDotsGo, hc, if_false, ih _ ht]
+    simp
+
+theorem splitDotsGo_intercalate (toks : List (List Char)) (hne : toks ≠ []) (h : ∀ tok ∈ toks, '.' ∉ tok) :
+    splitDotsGo (['.'].intercalate toks) [] = toks.map String.ofList := by
+  induction toks with
+  | nil => exact absurd rfl hne
+  | cons a l ih =>
+    cases l with
+    | nil =>
+      have := splitDotsGo_tok a [] [] (h a (by simp))
+      simp only [List.append_nil] at this
+      simp [List.intercalate, this, splitDotsGo]
+    | cons b l =>
+      have e : ['.'].intercalate (a :: b :: l) = a ++ ('.' :: ['.'].intercalate (b :: l)) := by
+        simp [List.intercalate]
+      rw [e, splitDotsGo_tok a _ [] (h a (by simp))]
+      simp only [splitDotsGo, if_true, List.append_nil, List.reverse_reverse]
+      rw [ih (by simp) (fun tok ht => h tok (by simp [ht]))]
+      simp
+
+theorem pathOf_tokens {k t} (hc : Chain k t) : ∀ tok ∈ pathOf t, '.' ∉ tok.toList ∧ tok ≠ "" := by
+  induction hc with
+  | ser => intro tok h; simp [pathOf] at h; subst h; decide
+  | opt _ ih => intro tok h; simp [pathOf] at h; rcases h with rfl | h; · decide
+                exact ih tok h
+  | list _ ih => intro tok h; simp [pathOf] at h; rcases h with rfl | h; · decide
+                 exact ih tok h
+  | dict _ ih => intro tok h; simp [pathOf] at h; rcases h with rfl | h; · decide
+                 exact ih tok h
+
+/-- the decorator entry of a chain field spells its path: splitting the text at `.` (or taking `["S"]` for the
+    empty text) gives back `pathOf t` -/
+theorem splitPathStr_pathStr {k t} (hc : Chain k t) : splitPathStr (pathStr t) = pathOf t := by
+  unfold pathStr
+  by_cases hp : pathOf t = ["S"]
+  · simp [hp, splitPathStr]
+  · simp only [hp, if_false]
+    have hne := hc.pathOf_ne_nil
+    have htok := pathOf_tokens hc
+    have hl : (".".intercalate (pathOf t)).toList = ['.'].intercalate ((pathOf t).map String.toList) := by
+      rw [String.toList_intercalate]; rfl
+    have hnonempty : (".".intercalate (pathOf t)).isEmpty = false := by
+      rw [String.isEmpty_eq_false_iff, Ne, ← String.toList_eq_nil_iff, hl]
+      cases hpt : pathOf t with
+      | nil => exact absurd hpt hne
+      | cons a l =>
+        have ha : a.toList ≠ [] := by
+          rw [Ne, String.toList_eq_nil_iff]; exact (htok a (by simp [hpt])).2
+        cases l with
+        | nil => simpa [List.intercalate] using ha
+        | cons b l => simp [List.intercalate, ha]
+    unfold splitPathStr
+    rw [hnonempty, hl]
+    simp only [Bool.false_eq_true, if_false]
+    rw [splitDotsGo_intercalate _ (by simpa using hne)
+      (by intro tok ht; simp only [List.mem_map] at ht; obtain ⟨s, hs, rfl⟩ := ht; exact (htok s hs).1)]
+    simp [List.map_map, Function.comp_def]
+
+/-! ## the whole post-init on an instance built from a sample -/
+
+/-- the converted value of one attribute: `mapLeaves` under the kind of its chain type, untouched otherwise -/
+def convAttr (fields : Fields) (kv : String × Json) : PVal :=
+  match (Fields.get? fields kv.1).bind chainKind? with
+  | some k => mapLeaves k kv.2
+  | none => .raw kv.2
+
+/-- instance state after the names in `D` were converted -/
+def stAttr (fields : Fields) (D : List String) (kv : String × Json) : String × PVal :=
+  (kv.1, if kv.1 ∈ D then convAttr fields kv else .raw kv.2)
+
+/-- the decorator's entries with their paths as token lists -/
+def tokenPaths (fields : Fields) : List (String × List String) :=
+  fields.filterMap (fun f => (chainKind? f.2).map (fun _ => (f.1, pathOf f.2)))
+
+def GoodEntry (fields : Fields) (e : String × List String) : Prop :=
+  ∃ t k, Fields.get? fields e.1 = some t ∧ Chain k t ∧ e.2 = pathOf t
+
+theorem find?_map_key {α β} (f : String × α → String × β) (hf : ∀ kv, (f kv).1 = kv.1) (n : String)
+    (xs : List (String × α)) :
+    (xs.map f).find? (·.1 = n) = (xs.find? (·.1 = n)).map f := by
+  induction xs with
+  | nil => rfl
+  | cons x xs ih =>
+    simp only [List.map_cons, List.find?_cons, hf]
+    split <;> simp [ih]
+
+theorem key_unique {α} {xs : List (String × α)} (nd : (xs.map (·.1)).Nodup) {a b : String × α}
+    (ha : a ∈ xs) (hb : b ∈ xs) (h : a.1 = b.1) : a = b := by
+  induction xs with
+  | nil => cases ha
+  | cons x xs ih =>
+    simp only [List.map_cons, List.nodup_cons, List.mem_map, not_exists, not_and] at nd
+    rcases List.mem_cons.1 ha with rfl | ha' <;> rcases List.mem_cons.1 hb with rfl | hb'
+    · rfl
+    · exact absurd h.symm (nd.1 b hb')
+    · exact absurd h (nd.1 a ha')
+    · exact ih nd.2 ha' hb'
+
+theorem postInit_go (acc : Accepts) (g : ModelLookup) (fields : Fields) (attrs : List (String × Json))
+    (hnda : (attrs.map (·.1)).Nodup)
+    (hinh : ∀ kv ∈ attrs, ∀ t, Fields.get? fields kv.1 = some t → Inh acc g t kv.2) :
+    ∀ (ps : List (String × List String)) (D : List String),
+      (∀ e ∈ ps, GoodEntry fields e ∧ e.1 ∈ attrs.map (·.1)) → (ps.map (·.1)).Nodup → (∀ e ∈ ps, e.1 ∉ D) →
+      postInit acc fields ps (attrs.map (stAttr fields D))
+        = .ok (attrs.map (stAttr fields (D ++ ps.map (·.1))))
+  | [], D, _, _, _ => by simp [postInit]
+  | (n, p) :: rest, D, hgood, hnd, hD => by
+    obtain ⟨⟨t, k, hget, hc, hp⟩, hmem⟩ := hgood (n, p) (by simp)
+    simp only at hget hp hmem
+    subst hp
+    -- the attribute exists
+    have hsome : (attrs.find? (·.1 = n)).isSome = true := by
+      rw [List.find?_isSome]
+      obtain ⟨kv, hkv, hk⟩ := List.mem_map.1 hmem
+      exact ⟨kv, hkv, by simpa using hk⟩
+    obtain ⟨kv, hfind⟩ := Option.isSome_iff_exists.1 hsome
+    have hkv_mem : kv ∈ attrs := List.mem_of_find?_eq_some hfind
+    have hkv_key : kv.1 = n := by simpa using List.find?_some hfind
+    have hnD : n ∉ D := hD (n, pathOf t) (by simp)
+    have hval := processValue_chain (acc := acc) (g := g) hc kv.2 false (hinh kv hkv_mem t (hkv_key ▸ hget))
+    have hlook : ((attrs.map (stAttr fields D)).find? (·.1 = n)).map (·.2) = some (.raw kv.2) := by
+      rw [find?_map_key (stAttr fields D) (fun _ => rfl), hfind]
+      simp [stAttr, hkv_key, hnD]
+    -- the write
+    have hset : setAttr (attrs.map (stAttr fields D)) n (mapLeaves k kv.2) = attrs.map (stAttr fields (D ++ [n])) := by
+      unfold setAttr
+      rw [List.map_map]
+      apply List.map_congr_left
+      intro kv' hkv'
+      simp only [Function.comp, stAttr]
+      by_cases hk' : kv'.1 = n
+      · have : kv' = kv := key_unique hnda hkv' hkv_mem (hk'.trans hkv_key.symm)
+        subst this
+        have hck : chainKind? t = some k := chainKind?_eq_some.2 hc
+        simp [hk', convAttr, hget, hck]
+      · have : (kv'.1 ∈ D ++ [n]) ↔ kv'.1 ∈ D := by simp [hk']
+        simp [hk', this]
+    simp only [postInit, hlook, hget, hval, hset]
+    have ih := postInit_go acc g fields attrs hnda hinh rest (D ++ [n])
+      (fun e he => hgood e (by simp [he]))
+      (by simp only [List.map_cons, List.nodup_cons] at hnd; exact hnd.2)
+      (by
+        intro e he hm
+        simp only [List.map_cons, List.nodup_cons, List.mem_map, not_exists, not_and] at hnd
+        rcases List.mem_append.1 hm with hm | hm
+        · exact hD e (by simp [he]) hm
+        · simp at hm; exact hnd.1 e he hm)
+    rw [ih]
+    simp [List.append_assoc]
+
+theorem tokenPaths_mem {fields : Fields} {e : String × List String} (h : e ∈ tokenPaths fields) :
+    ∃ f ∈ fields, ∃ k, Chain k f.2 ∧ e = (f.1, pathOf f.2) := by
+  simp only [tokenPaths, List.mem_filterMap, Option.map_eq_some_iff] at h
+  obtain ⟨f, hf, k, hk, rfl⟩ := h
+  exact ⟨f, hf, k, chainKind?_eq_some.1 hk, rfl⟩
+
+theorem tokenPaths_keys_sub (fields : Fields) : ∀ n ∈ (tokenPaths fields).map (·.1), n ∈ fields.map (·.1) := by
+  intro n hn
+  obtain ⟨e, he, rfl⟩ := List.mem_map.1 hn
+  obtain ⟨f, hf, k, _, rfl⟩ := tokenPaths_mem he
+  exact List.mem_map.2 ⟨f, hf, rfl⟩
+
+theorem tokenPaths_nodup : ∀ (fields : Fields), (fields.map (·.1)).Nodup → ((tokenPaths fields).map (·.1)).Nodup
+  | [], _ => by simp [tokenPaths]
+  | f :: fs, h => by
+    simp only [List.map_cons, List.nodup_cons] at h
+    have ih := tokenPaths_nodup fs h.2
+    unfold tokenPaths at ih ⊢
+    rw [List.filterMap_cons]
+    cases hk : chainKind? f.2 with
+    | none => simpa [hk] using ih
+    | some k =>
+      simp only [Option.map_some, List.map_cons, List.nodup_cons]
+      exact ⟨fun hm => h.1 (tokenPaths_keys_sub fs _ hm), ih⟩
+
+/-- the text entries of the decorator, split as `post_init_converters` splits them, are the token paths -/
+theorem decoratorPaths_eq (fields : Fields) :
+    (fields.filterMap fieldEntry).map (fun p => (p.1, splitPathStr p.2)) = tokenPaths fields := by
+  induction fields with
+  | nil => rfl
+  | cons f fs ih =>
+    unfold tokenPaths at ih ⊢
+    rw [List.filterMap_cons, List.filterMap_cons]
+    unfold fieldEntry at ih ⊢
+    cases hk : chainKind? f.2 with
+    | none => simpa [hk] using ih
+    | some k => simp [splitPathStr_pathStr (chainKind?_eq_some.1 hk), ih]
+
+theorem postInit_correct (acc : Accepts) (g : ModelLookup) (fields : Fields) (attrs : List (String × Json))
+    (hndf : (fields.map (·.1)).Nodup) (hnda : (attrs.map (·.1)).Nodup)
+    (hcover : ∀ f ∈ fields, (∃ k, Chain k f.2) → f.1 ∈ attrs.map (·.1))
+    (hinh : ∀ kv ∈ attrs, ∀ t, Fields.get? fields kv.1 = some t → Inh acc g t kv.2) :
+    postInit acc fields (tokenPaths fields) (attrs.map (fun kv => (kv.1, .raw kv.2)))
+      = .ok (attrs.map (fun kv => (kv.1, convAttr fields kv))) := by
+  have h0 : attrs.map (fun kv => (kv.1, PVal.raw kv.2)) = attrs.map (stAttr fields []) := by
+    apply List.map_congr_left; intro kv _; simp [stAttr]
+  rw [h0, postInit_go acc g fields attrs hnda hinh (tokenPaths fields) []
+    (by
+      intro e he
+      obtain ⟨f, hf, k, hc, rfl⟩ := tokenPaths_mem he
+      exact ⟨⟨f.2, k, Fields.get?_of_mem hndf hf, hc, rfl⟩, hcover f hf ⟨k, hc⟩⟩)
+    (tokenPaths_nodup fields hndf) (by simp)]
+  congr 1
+  apply List.map_congr_left
+  intro kv _
+  simp only [stAttr, List.nil_append]
+  by_cases hm : kv.1 ∈ (tokenPaths fields).map (·.1)
+  · simp [hm]
+  · simp only [hm, if_false]
+    -- not listed: no chain type under that key
+    unfold convAttr
+    cases hg : Fields.get? fields kv.1 with
+    | none => rfl
+    | some t =>
+      cases hk : chainKind? t with
+      | none => simp [hk]
+      | some k =>
+        exfalso; apply hm
+        refine List.mem_map.2 ⟨(kv.1, pathOf t), ?_, rfl⟩
+        simp only [tokenPaths, List.mem_filterMap, Option.map_eq_some_iff]
+        exact ⟨(kv.1, t), Fields.mem_of_get? hg, k, hk, rfl⟩
 
 end J2M.Conv
